@@ -99,6 +99,14 @@ var chunkSizeGen = rapid.OneOf(
 	rapid.IntRange(1, 65536),
 )
 
+// hugeOneIn: one case in N carries a message of up to 2^24-1 bytes.
+func hugeOneIn() int {
+	if pbt.Thorough() {
+		return 60
+	}
+	return 400
+}
+
 func maxLen() int {
 	if pbt.Thorough() {
 		return 400 * 1024
@@ -178,7 +186,19 @@ func genWrite(t *rapid.T) WriteCase {
 	if c.ChunkSize < 16 {
 		max = 6000 // keeps the chunk count sane for tiny chunk sizes
 	}
+	// the 24-bit length field: a message of (nearly) 2^24-1 bytes, alone, with a chunk size that keeps the chunk
+	// count sane (the quantifier names every length the field can carry)
+	huge := c.ChunkSize >= 128 && rapid.IntRange(0, hugeOneIn()-1).Draw(t, "hugeLen") == 0
+	if huge {
+		n = 1
+	}
 	for i := 0; i < n; i++ {
+		if huge {
+			c.Msgs = append(c.Msgs, M{Csid: csidGen.Draw(t, "csid"), Type: typeGen.Draw(t, "type"), Msid: 1, Ts: tsGen.Draw(t, "ts"),
+				Len:  rapid.OneOf(rapid.SampledFrom([]int{0xFFFFFF, 0xFFFFFE, 0x800000, 0x100000}), rapid.IntRange(0x100000, 0xFFFFFF)).Draw(t, "hugeLenValue"),
+				Seed: rapid.Uint32().Draw(t, "seed")})
+			continue
+		}
 		c.Msgs = append(c.Msgs, M{
 			Csid: csidGen.Draw(t, "csid"),
 			Type: typeGen.Draw(t, "type"),
@@ -280,6 +300,12 @@ func classifyWrite(c WriteCase) (bool, []string) {
 		if m.Ts >= 0xFFFFFF {
 			nt = true
 			labels = append(labels, "ext-ts")
+		}
+		if m.Len >= 0x100000 {
+			labels = append(labels, "len>=1MiB")
+		}
+		if m.Len >= 0xFFFFFE {
+			labels = append(labels, "len=2^24-1|2^24-2")
 		}
 		if m.Ts == 0xFFFFFF {
 			labels = append(labels, "ts=0xFFFFFF")
@@ -422,7 +448,7 @@ func genRead(t *rapid.T) ReadCase {
 			var step Step
 			if kind == "agg" {
 				m.Type = rtmpref.TypeAggregate
-				nsub := rapid.IntRange(1, 4).Draw(t, "nsub")
+				nsub := rapid.OneOf(rapid.IntRange(1, 4), rapid.IntRange(1, 12)).Draw(t, "nsub")
 				base := rapid.Uint32Range(0, 0x2000000).Draw(t, "aggBase")
 				off := uint32(0)
 				for j := 0; j < nsub; j++ {
@@ -430,7 +456,7 @@ func genRead(t *rapid.T) ReadCase {
 						Type: rapid.SampledFrom([]uint8{8, 9, 18}).Draw(t, "subType"),
 						Msid: rapid.Uint32Range(0, 0xFFFFFF).Draw(t, "subMsid"),
 						Ts:   base + off,
-						Len:  rapid.IntRange(0, 600).Draw(t, "subLen"),
+						Len:  rapid.OneOf(rapid.IntRange(0, 600), rapid.IntRange(0, 600), rapid.IntRange(0, 600), rapid.IntRange(0, lmax/4)).Draw(t, "subLen"),
 						Seed: rapid.Uint32().Draw(t, "subSeed"),
 					})
 					off += rapid.Uint32Range(0, 100).Draw(t, "subDelta")
